@@ -360,3 +360,61 @@ Proof.
   - unfold ws_run, ws_step. rewrite switch_is_repaired. cbn [fold_left ws_step_gen ws_new ws_native ws_vkeys ws_boot ws_plutus ws_data].
     destruct (nonempty (t_native c)); destruct (nonempty (pl_elems _)); cbn [ws_data pl_elems plist_dedup_gen]; try constructor; apply datum_dedup_emits_once.
 Qed.
+
+(* ---------- the judges accept the model's own observations (they are not contradictory) ---------- *)
+Lemma list_eqb_refl l : list_eqb l l = true.
+Proof. induction l as [|x l IH]; cbn; [reflexivity | now rewrite bytes_eqb_refl, IH]. Qed.
+Lemma bools_eqb_refl l : bools_eqb l l = true.
+Proof. induction l as [|x l IH]; cbn; [reflexivity | rewrite IH; now destruct x]. Qed.
+
+Lemma first_occ_absorb {A} (eqb : A -> A -> bool) (E : forall x y, eqb x y = true <-> x = y) a b :
+  first_occ eqb (first_occ eqb a ++ b) = first_occ eqb (a ++ b).
+Proof.
+  rewrite !(first_occ_app eqb E). rewrite (first_occ_nodup eqb E (first_occ eqb a)) by apply (NoDup_first_occ eqb E).
+  f_equal. apply filter_ext. intros y. f_equal.
+  destruct (mem eqb y a) eqn:M.
+  - apply (proj2 (mem_In eqb E _ _)). apply (proj2 (In_first_occ eqb E _ _)). now apply (proj1 (mem_In eqb E _ _)).
+  - apply (proj2 (mem_false eqb E _ _)). intros H. apply (proj1 (In_first_occ eqb E _ _)) in H.
+    apply (proj2 (mem_In eqb E _ _)) in H. congruence.
+Qed.
+
+Lemma scripts_init_is_run vs : forall s,
+  fold_left (fun s v => extend bytes_eqb s (from_vec bytes_eqb v)) vs s = run bytes_eqb s (map (@OExtend bytes) vs).
+Proof. unfold run. induction vs as [|v vs IH]; intros s; cbn; [reflexivity | apply IH]. Qed.
+Lemma offered_extends (vs : list (list bytes)) : offered (map (@OExtend bytes) vs) = concat vs.
+Proof. induction vs as [|v vs IH]; cbn; [reflexivity | now rewrite IH]. Qed.
+
+Lemma init_set_ok k i s0 : init_set k i = Ok s0 ->
+  exists pre, init_offered k i = Ok pre /\ wf s0 /\ items s0 = first_occ bytes_eqb pre.
+Proof.
+  destruct i as [|f|v|vs]; cbn [init_set init_offered].
+  - intros [= <-]. exists []. split; [reflexivity|]. split; [apply wf_empty | reflexivity].
+  - intros D. unfold decode in D. unfold frame_elems.
+    destruct (skip_set_tag (f_tags f)) as [t1| | |]; cbn [bind] in *; try discriminate.
+    destruct (if double_tag (cfg_of k) then skip_set_tag t1 else Ok t1) as [t2| | |]; cbn [bind] in *; try discriminate.
+    destruct t2; [|discriminate].
+    destruct (read_items (cfg_of k) (f_len f) (f_items f) (f_break f) []) as [e| | |]; cbn [bind] in *; try discriminate.
+    injection D as <-. exists e. split; [reflexivity|]. split; [apply (wf_from_vec bytes_eqb bytes_eqb_spec) | apply (items_from_vec bytes_eqb bytes_eqb_spec)].
+  - intros [= <-]. exists v. split; [reflexivity|]. split; [apply (wf_from_vec bytes_eqb bytes_eqb_spec) | apply (items_from_vec bytes_eqb bytes_eqb_spec)].
+  - intros [= <-]. exists (concat vs). rewrite scripts_init_is_run. split; [reflexivity|]. split.
+    + apply (wf_run bytes_eqb bytes_eqb_spec), wf_empty.
+    + rewrite (first_insertion_order bytes_eqb bytes_eqb_spec). now rewrite offered_extends.
+Qed.
+
+Theorem judge_set_accepts_model k i h o : set_case k i h = Ok o -> judge_set k i h (o_items o) (o_bools o) = true.
+Proof.
+  unfold set_case. destruct (init_set k i) as [s0| | |] eqn:I; cbn [bind]; try discriminate.
+  intros [= <-]. cbn [o_items o_bools]. destruct (init_set_ok k i s0 I) as (pre & IO & W & IT).
+  unfold judge_set. rewrite IO. rewrite !andb_true_iff. repeat split.
+  - apply nodupb_spec. now apply (nodup_run bytes_eqb bytes_eqb_spec).
+  - rewrite (first_insertion_order_from bytes_eqb bytes_eqb_spec s0 h W), IT, (first_occ_absorb bytes_eqb bytes_eqb_spec).
+    apply list_eqb_refl.
+  - rewrite (observe_spec bytes_eqb bytes_eqb_spec h s0 pre W); [apply bools_eqb_refl|].
+    intros x. rewrite IT. apply (In_first_occ bytes_eqb bytes_eqb_spec).
+Qed.
+
+Theorem judge_fields_accepts_model h : Forall op_ok h -> judge_fields (ws_fields (ws_run h)) = true.
+Proof.
+  intros Ok. unfold judge_fields. apply forallb_forall. intros [k els] I. cbn. apply nodupb_spec.
+  eapply ws_setters_emit_once; eassumption.
+Qed.
